@@ -126,7 +126,7 @@ func ruleC04(c *Ctx, r *Report) {
 						_, constVal := constString(peel(val))
 						r.Check(isConst && constVal && hasCfg(b, "redactIPs"), "C04-R1", construct, c.InstrPos(i),
 							"attr.remote is replaced by a constant under --redactIPs only", "attr.remote is rewritten outside --redactIPs or with a non-constant")
-					case "originatingCommand", "cmd", "command":
+					case "originatingCommand", "cmd", "command", "commandArgs":
 						vk, _ := getKeyOfValue(val)
 						r.Check(vk == key, "C04-R1", construct, c.InstrPos(i),
 							"attr."+key+" is re-stored as the (zone-redacted) document read from the same key: position and the other members are kept",
@@ -193,12 +193,21 @@ func ruleC04(c *Ctx, r *Report) {
 			continue
 		}
 		for _, call := range c.callersOf(wf) {
+			if call.Parent() == cmdFn {
+				// the explain wrapper: the command walker applies itself / the rewriter to cmd[explain]
+				rv, kv, ok := getKeyValueOf(call.Call.Args[0])
+				s, isC := constString(kv)
+				okEx := ok && peel(rv) == ssa.Value(cmdFn.Params[0]) && isC && s == "explain"
+				r.Check(okEx, "C04-R1", fmt.Sprintf("%s:applies(%s,cmd.explain)", cmdFn.Name(), wf.Name()), c.InstrPos(call),
+					wf.Name()+" is applied to the command wrapped in cmd.explain", wf.Name()+" is applied inside the command walker to something other than cmd.explain")
+				continue
+			}
 			if call.Parent() != root {
 				r.Bad("C04-R1", fmt.Sprintf("%s:applies(%s)", call.Parent().Name(), wf.Name()), c.InstrPos(call), wf.Name()+" is applied outside the line function")
 				continue
 			}
 			k, ok := getKeyOfValue(call.Call.Args[0])
-			isCmd := ok && (k == "command" || k == "cmd" || k == "originatingCommand")
+			isCmd := ok && commandDocKeys[k]
 			r.Check(isCmd, "C04-R1", fmt.Sprintf("%s:applies(%s,attr.%s)", root.Name(), wf.Name(), k), c.InstrPos(call),
 				wf.Name()+" is applied to the command document read from attr."+k,
 				wf.Name()+" is applied to something other than a command document ("+describeArg(call.Call.Args[0])+"): members of other documents with the same key names are rewritten")
